@@ -30,7 +30,8 @@ impl T {
 }
 
 pub fn keys10() -> Vec<String> {
-    ["", "a b", "a.b", "1", "true", "\"", "'", "\n", "é", "a-_1"].iter().map(|s| s.to_string()).collect()
+    // (ª µ ² are non-ASCII characters that Unicode calls alphabetic / numeric: they still need quotes as keys)
+    ["", "a b", "a.b", "1", "true", "\"", "'", "\n", "é", "a-_1", "ª", "µs", "m²", "日本"].iter().map(|s| s.to_string()).collect()
 }
 
 pub fn leaves() -> Vec<Leaf> {
@@ -632,7 +633,7 @@ pub fn c06(tier: Tier) -> i32 {
         "C06",
         tier,
         "model_checking",
-        "every tree shape with <= s nodes over {leaf, array, inline table, table, array of tables} is built through five construction routes (insert; entry().or_insert + value()/table() + get_or_insert; index assignment + From/FromIterator; build-as-inline-then-into_table / into_array_of_tables; insert_formatted) and as toml::Table; keys from 10 adversarial keys and leaves from ~240 adversarial leaves (incl. every pair of byte-class representatives) with <= d positions deviating from the defaults; printed text must be valid (specification model) and accepted by the parser, decode to the built tree (order among values and among tables), be a fixed point, print identically twice and across routes; non-trivial = every distinct tree",
+        "every tree shape with <= s nodes over {leaf, array, inline table, table, array of tables} is built through five construction routes (insert; entry().or_insert + value()/table() + get_or_insert; index assignment + From/FromIterator; build-as-inline-then-into_table / into_array_of_tables; insert_formatted) and as toml::Table; keys from 14 adversarial keys and leaves from ~240 adversarial leaves (incl. every pair of byte-class representatives) with <= d positions deviating from the defaults; printed text must be valid (specification model) and accepted by the parser, decode to the built tree (order among values and among tables), be a fixed point, print identically twice and across routes; non-trivial = every distinct tree",
     );
     rep.assumptions = vec![
         "TOML puts a table's own values before its sub-tables, so key order is compared separately among value entries and among table / array-of-tables entries; NaN payloads have no spelling: NaNs compare by sign only".into(),
@@ -694,6 +695,49 @@ pub fn c06(tier: Tier) -> i32 {
         })
         .reduce(Acc::default, Acc::merge);
     rep.absorb("U-tree", &format!("{} shapes with <= {} nodes x every assignment with <= {} deviating positions over 10 keys / {} leaves x 5 construction routes + toml::Table", shapes.len(), s, d, ls.len()), work.len() as u64, true, t0, acc);
+    // nesting chains: every sequence of <= 6 container kinds around one leaf (the formatters decide per level whether an
+    // inline table may be promoted to a [table]; a wrong decision only shows some levels down)
+    {
+        let t0 = std::time::Instant::now();
+        let depth = tier.pick(5, 7);
+        // 0: array with a scalar sibling, 1: single-element array, 2: inline table, 3: table (only while still at table level)
+        let mut chains: Vec<Vec<u8>> = vec![vec![]];
+        let mut all: Vec<Vec<u8>> = Vec::new();
+        for _ in 0..depth {
+            let mut next = Vec::new();
+            for c in &chains {
+                for k in 0..4u8 {
+                    if k == 3 && c.iter().any(|x| *x != 3) {
+                        continue;
+                    }
+                    let mut d = c.clone();
+                    d.push(k);
+                    next.push(d);
+                }
+            }
+            all.extend(next.iter().cloned());
+            chains = next;
+        }
+        fn build(chain: &[u8]) -> T {
+            match chain.first() {
+                None => T::Leaf(Leaf::I(1)),
+                Some(0) => T::Arr(vec![T::Leaf(Leaf::S("s".into())), build(&chain[1..])]),
+                Some(1) => T::Arr(vec![build(&chain[1..])]),
+                Some(2) => T::Inl(vec![("a".to_string(), build(&chain[1..])), ("z".to_string(), T::Leaf(Leaf::I(2)))]),
+                _ => T::Tab(vec![("y".to_string(), T::Leaf(Leaf::I(3))), ("t".to_string(), build(&chain[1..]))]),
+            }
+        }
+        let acc = all
+            .par_iter()
+            .fold(Acc::default, |mut acc, c| {
+                let root = T::Tab(vec![("x".to_string(), build(c)), ("w".to_string(), T::Leaf(Leaf::B(true)))]);
+                acc.evals += 1;
+                check_tree(&root, &mut acc);
+                acc
+            })
+            .reduce(Acc::default, Acc::merge);
+        rep.absorb("U-chain", &format!("every chain of <= {} nested containers (mixed array, array, inline table, table) around one leaf", depth), all.len() as u64, true, t0, acc);
+    }
     rep.finish()
 }
 
